@@ -21,9 +21,9 @@ import regen_c14
 PID = "C14"
 THEOREMS = ["all_tables_wf", "all_triples_indexed", "offsets_as_prescribed", "dynamic_offset_aligned_after_prev",
             "no_overlap", "segments_intact", "gaps_are_pattern", "init_offset_snaps", "init_offset_dynamic_refuted",
-            "parse_merge", "parse_noninit_offset_refuted", "fcb_unsupported_family_refuted",
-            "fixed_size_truncation_refuted"]
-WORKDIR = os.path.join(vlib.WORK, PID)
+            "parse_merge", "parse_full_image", "raw_recogniser_contract", "parse_noninit_offset_refuted",
+            "fcb_unsupported_family_refuted", "fixed_size_truncation_refuted"]
+WORKDIR = os.path.join(vlib.WORK, PID, "run")
 NPROC = 6
 CONTAINER = {"mbi": "mbi", "hab_container": "hab", "ahab_container": "ahab", "primary_image_container_set": "ahab",
              "secondary_image_container_set": "ahab", "sb21": "sb21", "sb31": "sb31"}
@@ -86,7 +86,11 @@ def impl_case(tab, c):
 
 
 def coq_bytes(b):
-    return "VBytes ([" + "; ".join(str(x) for x in b) + "]%N)"
+    if len(b) <= 32:
+        return "VBytes ([" + "; ".join(str(x) for x in b) + "]%N)"
+    # 7 bytes per primitive integer literal (see BimgModel.unpack63)
+    lits = "; ".join("0x" + b[i:i + 7][::-1].hex() for i in range(0, len(b), 7))
+    return f"VBytes (unpack63 {len(b)} [{lits}]%uint63)"
 
 
 def coq_payload(row, p):
@@ -147,9 +151,8 @@ def oracle_merge(tab, c, data, res):
     if not loaded:
         if res["load"][1] == 2 and "hab_container" in [s["name"] for s, d in zip(tab["rows"], data) if not d]:
             return None              # configuration without the mandatory HAB container: outside the property (see report)
-        if res["load"][1] == 1:
-            return None              # refused by SPSDK with its own error: nothing was merged
-        return (f"merge:crash:{cls}:{where}", f"load_from_config raised {res['load']}")
+        what = "rejected" if res["load"][1] == 1 else "crash"
+        return (f"merge:{what}:{cls}:{where}", f"load_from_config of an admissible configuration raised {res['load']}")
     if res["io"] != sp["io"]:
         return (f"merge:init-offset:{cls}:{where}", f"requested start {r}: image starts at {res['io']}, the closest segment "
                 f"start at or above the request is {sp['io']}")
@@ -235,21 +238,27 @@ def oracle_roundtrip(tab, c, data, res, mode, fcb_supported):
     init_ok = io == 0 or any(s["offset"] == io and s["init"] for s in rows)
     cls = layout_class(tab)
     has_fcb = any(s["name"] in ("fcb", "fcb_xspi") and d and s["offset"] >= io for s, d in zip(rows, data))
-    tagsuffix = ("fcb-family-without-fcb-description" if (has_fcb and not fcb_supported) else
-                 "fixed-size-" + wf if wf != "ok" else
-                 "start-at-non-init-segment" if not init_ok else "wellformed")
+    # input class of the case (most specific cause first); a per-segment length class is used for byte mismatches
+    general = ("later-start-on-dynamic-layout" if (io > 0 and cls == "dynamic-layout") else
+               "fcb-family-without-fcb-description" if (has_fcb and not fcb_supported) else
+               "start-at-non-init-segment" if not init_ok else None)
     p = res["parses"].get(mode)
     if p is None:
         return None
     if isinstance(p, list):
-        return (f"roundtrip:parse-failed:{tagsuffix}:{cls}", f"parse ({mode}) of the merged image failed with {p}")
+        suffix = general or ("fixed-size-" + wf if wf != "ok" else "wellformed")
+        return (f"roundtrip:parse-failed:{suffix}:{cls}", f"parse ({mode}) of the merged image failed with {p}")
     if p["io"] != io:
-        return (f"roundtrip:start:{tagsuffix}:{cls}", f"parse ({mode}) located the image start at {p['io']}, it starts at {io}")
+        suffix = general or ("fixed-size-" + wf if wf != "ok" else "wellformed")
+        return (f"roundtrip:start:{suffix}:{cls}", f"parse ({mode}) located the image start at {p['io']}, it starts at {io}")
     for s, d, row in zip(rows, data, p["segs"]):
         want = d if (s["offset"] < 0 or s["offset"] >= io) else b""
         got = uz(row[5]) if isinstance(row[5], str) else None
         if got != want:
-            return (f"roundtrip:segment-bytes:{s['name']}:{tagsuffix}:{cls}",
+            own = ("fixed-size-short" if len(d) < s["size"] else "fixed-size-long" if len(d) > s["size"] else None) \
+                if (s["name"] in RAW_FIXED and d) else None
+            suffix = own or general or "wellformed"
+            return (f"roundtrip:segment-bytes:{s['name']}:{suffix}:{cls}",
                     f"parse ({mode}) returned {None if got is None else len(got)} bytes for {s['name']}, supplied {len(want)}"
                     + ("" if got is None or len(got) != len(want) else " (content differs)"))
     return None
@@ -354,7 +363,7 @@ def valid_payload(tab, triple, k, pay, variant=0):
     else:
         return ["syn", 129 + k, s["size"]]
     h = pay.get(key)
-    return ["hex", h] if h else None
+    return ["hex", h, "c14_impl.make_payloads " + key] if h else None
 
 
 def payload_requests(tab, triple, fcb_supported):
@@ -418,7 +427,7 @@ def gen_roundtrip_cases(tab, triple, pay, rng, depth):
                 p[k] = ["syn", 129 + k, sz]
                 add(p, 0, ["typed"], "fixed-size-length")
             p = list(full)
-            p[k] = ["hex", "00" * rows[k]["size"]]
+            p[k] = ["hex", "00" * rows[k]["size"], "all-zero block"]
             add(p, 0, ["typed"], "padding-only")
     return cases
 
@@ -516,7 +525,8 @@ def model_parse_obs(data, v):
 
 def short(c):
     return {"family": c["family"], "revision": c["rev"], "memory_type": c["mem"], "init_offset": c["init"],
-            "segments": [None if p is None else (p if p[0] != "hex" else ["hex", f"<{len(p[1]) // 2} bytes>", p[1][:64]])
+            "segments": [None if p is None else
+                         (p if p[0] != "hex" else ["hex", f"<{len(p[1]) // 2} bytes>", p[2] if len(p) > 2 else p[1][:64]])
                          for p in c["payloads"]], "why": c["why"]}
 
 
@@ -535,8 +545,7 @@ def run(tier):
         rep.obligation("translate:device database (features.bootable_image) + segments.py -> Gen/GenBimg.v", False, repr(ex))
     # (P) proofs
     model_ok, mout = vlib.coq_make(["Model/BimgModel.vo"])
-    if not os.environ.get("C14_DEV"):
-        vlib.check_theorems(rep, PID, THEOREMS, ["Proofs/BimgProofs.vo"])
+    vlib.check_theorems(rep, PID, THEOREMS, ["Proofs/BimgProofs.vo"])
     vlib.audit(rep)
     if gen is None:
         return rep.finish(rule="", trusted_base=[], checker_cmd="")
@@ -568,14 +577,16 @@ def run(tier):
         for j, u in enumerate(dict.fromkeys(pick)):
             rt_jobs.append((t, u, (2 if thorough else 1) if j == 0 else 0))
     if thorough:
+        # every (family, revision, memory type) triple of the database
         seen = {(t, u) for (t, u, _) in layout_jobs}
         for (f, r, m, t, fs) in triples:
             if (t, (f, r, m)) not in seen:
-                layout_jobs.append((t, (f, r, m), 0))
+                layout_jobs.append((t, (f, r, m), 1))
         seen = {(t, u) for (t, u, _) in rt_jobs}
-        for (f, r, m, t, fs) in triples:
-            if (t, (f, r, m)) not in seen:
-                rt_jobs.append((t, (f, r, m), 0))
+        rest = [(t, (f, r, m)) for (f, r, m, t, fs) in triples if (t, (f, r, m)) not in seen]
+        deep = set(rng.sample(range(len(rest)), min(150, len(rest))))
+        for j, (t, u) in enumerate(rest):
+            rt_jobs.append((t, u, 1 if j in deep else 0))
     # ---- valid payloads for the round-trip stream
     reqs, seenk = [], set()
     for (t, u, d) in rt_jobs:
@@ -632,7 +643,7 @@ def run(tier):
             exprs = [model_expr(tables[c["table"]], c, fcbs[(c["family"], c["rev"], c["mem"])]) for c in cases]
             exprs.append("run_case 3 [VInt 150; VInt 5]")
             t1 = time.time()
-            mres = vlib.run_model_cases("c14", "Value BimgModel", exprs, shard=40 if not thorough else 100, timeout=1500, jobs=8)
+            mres = vlib.run_model_cases("c14", "Value BimgModel Uint63", exprs, shard=40 if not thorough else 100, timeout=1500, jobs=8)
             vlib.log(f"[C14] model side done in {time.time() - t1:.1f} s ({len(exprs)} evaluations)")
             if mres[-1] != ("b", syn_bytes(150, 5)):
                 rep.obligation("correspondence:synthetic payload generator", False, repr(mres[-1]))
